@@ -26,7 +26,9 @@ RULE = ('generated directory layouts (inside files with/without extension and in
         '(layout, base spelling, name).')
 EXHAUSTIVE = {'quick': False, 'thorough': False}
 ASSUMPTIONS = ['containment reference: os.path.realpath(candidate) equals or lies below os.path.realpath(base)',
-               'layouts are created under a fresh tempfile.mkdtemp() directory and removed afterwards']
+               'layouts are created under a fresh tempfile.mkdtemp() directory and removed afterwards',
+               '"must be read" is asserted for names whose own path (before extension completion) resolves inside; a name '
+               'that resolves outside and only lands inside again after extension completion may be refused']
 
 OPENED = []
 HOOK = {'on': False, 'root': None, 'installed': False}
@@ -50,7 +52,8 @@ def plan(tier, seed):
 def floors(tier):
     return {'evaluations': 10000, 'distinct_nontrivial': 1500, 'outside_targets_requested': 1500,
             'inside_reads_confirmed': 800, 'audit_open_events': 800, 'via_latex_to_text': 1000,
-            'histkeys:escape_kind': 6, 'reused_object_calls': 2000, 'reconfigurations': 500}
+            'histkeys:escape_kind': 6, 'reused_object_calls': 2000, 'reconfigurations': 500,
+            'respelled_directory_reads': 5000}
 
 
 def setup(rec):
@@ -78,6 +81,10 @@ class Layout(object):
         for rel in (b + '2/sib.tex', b + '2/in.tex', b + '-x/in.tex', 'other/out.tex', 'other/deep/d.tex', 'secret',
                     b + '.tex', b + '.latex', 'in.tex', 'other/noext'):
             self.write(rel, 'OUTSIDE')
+        # a second directory with the same relative spelling under another working directory
+        os.makedirs(os.path.join(root, 'alt', b, 'sub'))
+        for rel in ('alt/' + b + '/in.tex', 'alt/' + b + '/noext', 'alt/' + b + '/sub/deep.tex', 'alt/in.tex'):
+            self.write(rel, 'ALT')
         sl = os.symlink
         sl(os.path.join(root, 'other/out.tex'), os.path.join(self.base, 'lnk.tex'))        # file symlink -> outside
         sl(os.path.join(root, 'other'), os.path.join(self.base, 'lnkdir'))                 # dir symlink -> outside
@@ -169,7 +176,11 @@ def evaluate(lay, base, name, via, rec, l2t=None):
     files = [p for p in existing if os.path.isfile(p)]
     outside_files = [p for p in files if not inside(rb, p)]
     inside_files = [p for p in files if inside(rb, p)]
-    must_read = bool(existing) and len(files) == len(existing) and not outside_files
+    # "names that resolve inside are read": the name as written must itself resolve inside; a name whose own path
+    # resolves outside and only its extension-completed form lands inside again (symlink out, extension-only symlink back
+    # in) is refused by the library's first containment test -- a safe refusal the statement does not clearly exclude
+    must_read = bool(existing) and len(files) == len(existing) and not outside_files and \
+        inside(rb, os.path.realpath(os.path.join(base, name)))
     if l2t is None:
         l2t = LatexNodes2Text()
         l2t.set_tex_input_directory(base, strict_input=True)
@@ -334,6 +345,32 @@ def run_shard(desc, rec):
                                         'name': name.replace(root, '<R>'), 'via': via, 'chdir': chdir}
                                 rec.violation(case, '%s | base %r name %r via %s' % (err, case['base'], case['name'], via),
                                               mech=err.split(' ')[0])
+                finally:
+                    os.chdir(cwd)
+            # one spelling whose meaning changes within the process: the relative name under another working
+            # directory, and a directory symlink that is re-pointed between uses
+            few = names[:len(lay.components)] + [rng.choice(names) for _ in range(150)] + names[-10:]
+            cur = os.path.join(root, 'cur')
+            for base, wd, target in ((lay.bname, os.path.join(root, 'alt'), None), ('./' + lay.bname + '/', root, None),
+                                     (cur, None, lay.base), (cur, None, os.path.join(root, 'other')),
+                                     (cur, None, os.path.join(root, 'alt', lay.bname)), (lay.bname, root, None)):
+                if target is not None:
+                    if os.path.islink(cur):
+                        os.remove(cur)
+                    os.symlink(target, cur)
+                if wd:
+                    os.chdir(wd)
+                try:
+                    for name in few:
+                        rec.case()
+                        rec.monitor('respelled_directory_reads')
+                        err = evaluate(lay, base, name, 'read', rec)
+                        if err:
+                            case = {'layout_seed': lseed, 'base': base.replace(root, '<R>'), 'name': name.replace(root, '<R>'),
+                                    'via': 'read', 'respelled': [wd and wd.replace(root, '<R>'), target and target.replace(root, '<R>')]}
+                            rec.violation(case, '%s | base %r (working directory %r, symlink target %r) name %r' % (
+                                err, case['base'], case['respelled'][0], case['respelled'][1], case['name']),
+                                mech='respelled:' + err.split(' ')[0])
                 finally:
                     os.chdir(cwd)
         finally:
